@@ -100,7 +100,18 @@ func EvalText(text string, data map[string]interface{}) EvalOut {
 	if data != nil {
 		r.SetThis(data)
 	}
+	var before string
+	pure := !strings.Contains(text, "$")
+	if pure && data != nil {
+		before = Snapshot(data, func(string) bool { return true })
+	}
 	out := Eval(r, context.Background(), p.Src.Expression)
+	if pure && data != nil {
+		// a formula without locals only reads: the caller's data (nested values and their Go types included) is as it was
+		if after := Snapshot(data, func(string) bool { return true }); after != before {
+			return EvalOut{Panic: fmt.Sprintf("evaluating %q changed the caller's data:\nbefore %s\nafter  %s", text, before, after)}
+		}
+	}
 	if !strings.Contains(text, "$") && !strings.Contains(text, "now") && !strings.Contains(text, "toDay") {
 		// Evaluation must leave the tree unchanged: the same parsed tree,
 		// evaluated once more in a fresh runner with the same data (no locals
